@@ -177,7 +177,7 @@ def build():
     deps = [os.path.join(C.COQ_SRC, f) for f in ("ConcView.v", "Preds2.v", "Preds.v", "Codec.v", "Msg.v")] + \
            [os.path.join(odir, f) for f in ("driver.ml", "extract.v", "build.sh")]
     if _newer(deps, ora):
-        if _newer([os.path.join(C.COQ_SRC, "ConcView.v")], os.path.join(C.COQ_SRC, "ConcView.vo")):
+        if _newer([os.path.join(C.COQ_SRC, "ConcView.v"), os.path.join(C.COQ_SRC, "Preds2.vo")], os.path.join(C.COQ_SRC, "ConcView.vo")):
             rc, out = coqc("ConcView.v")
             if rc != 0:
                 return False, "INTERNAL: coq/ConcView.v does not compile:\n" + out[-2000:], None
@@ -204,7 +204,9 @@ def coq_side():
                 info["ok"] = False; info["log"] = "forbidden vernacular %s:%d: %s" % (f, i, line.strip()); return info
         vo = p[:-2] + ".vo"
         last = f == COQ_FILES[-1]
-        if last or _newer([p] + [os.path.join(C.COQ_SRC, g) for g in COQ_FILES[:COQ_FILES.index(f)]], vo):
+        # stale when its source, or the compiled file it is built on, is newer (Preds2.vo for the first)
+        prev = os.path.join(C.COQ_SRC, "Preds2.vo") if f == COQ_FILES[0] else os.path.join(C.COQ_SRC, COQ_FILES[COQ_FILES.index(f) - 1][:-2] + ".vo")
+        if last or _newer([p, prev], vo):
             rc, out = coqc(f)
             if rc != 0:
                 info["ok"] = False; info["log"] = "%s: %s" % (f, out[-3000:]); return info
@@ -397,7 +399,13 @@ def phase(tier="quick", verbose=False):
                     open(rp + ".txt", "w").write(describe(name, progs, setup, ex) + "\n")
                     ent = {"scenario": name, "replay": rp, "schedule": ex.choices, "executions": 1, "known": k in known}
                     cov["kinds"][k] = ent
-                    if k in known:
+                    if "/strict" in k:
+                        # only the STRICT client diverges (a state handed on joining overwrites the broadcasts that reached the
+                        # newcomer between its join answer and that state); the property is read with the lenient client
+                        # (DESIGN reading decision 13): recorded as an observation, neither a violation nor a known finding
+                        ent["observation"] = True
+                        cov.setdefault("observations", []).append(k)
+                    elif k in known:
                         line = known[k].get("line") or "KNOWN-FINDING: property=%s %s" % (PID, k)
                         if line not in cov["known_lines"]:
                             cov["known_lines"].append(line)
@@ -424,7 +432,9 @@ def report(cov):
         print("  witness %-44s %s  %s" % (w["file"], "replays" if w["replays"] else "DOES NOT REPLAY", w.get("theorem") or ""))
 
 
-def run(tier="quick", replay=None):
+def run(tier="quick", replay=None, merge_pid=None, relay_only=False):
+    """merge_pid: append the coverage to evidence/<merge_pid>.json (written just before by the sequential part of that
+    property's check) instead of writing a stand-alone file; relay_only: judge only the C02 clause (relay kinds, ties)"""
     t0 = time.time()
     if replay:
         return do_replay(replay)
@@ -436,20 +446,27 @@ def run(tier="quick", replay=None):
         print("INTERNAL: " + str(e)); return 2
     if not info["ok"]:
         print("INTERNAL: the Coq side of the concurrent clause does not check:\n" + info["log"][-2000:]); return 2
-    report(cov)
-    for line in cov["known_lines"]:
+    if not relay_only:
+        report(cov)
+    for line in ([] if relay_only else cov["known_lines"]):
         print(line if line.startswith("KNOWN-FINDING") else "KNOWN-FINDING: property=%s %s" % (PID, line))
     rc = 0
     seen = {}
+    pid_out = merge_pid or PID
+    if relay_only:
+        viol = [v for v in viol if v["kind"] != "property" or "/relay" in v["what"]]
+        cov["known_lines"] = []
     for v in viol:
         if v["kind"] == "property":
             seen.setdefault(class_of(v["what"]), []).append(v)
     for cls, vs in seen.items():
         print("  unmatched by known_findings.json: %s  (%s)" % (cls, ", ".join(v["what"] for v in vs)))
-        C.violation(PID, vs[0]["replay"]); rc = 1
-    for v in viol:
-        if v["kind"] != "property":
-            C.violation(PID, v["replay"], no_input=True); rc = 1
+        C.violation(pid_out, vs[0]["replay"]); rc = 1
+    ties = [v for v in viol if v["kind"] != "property"]
+    for v in ties:
+        print("  tie: " + v["what"][:600])
+    if ties:
+        C.violation(pid_out, ties[0]["replay"], no_input=True); rc = 1
     coverage = dict(cov, obligations=len(info["theorems"]), discharged=len(info["theorems"]), theorems=info["theorems"], examples=info["examples"],
                     checker_cmd="python3 -m checks.c01conc --tier %s (tools/instrument + harness/l3v + oracle/concview; coqc ConcView.v proofs/ConcViewProofs.v Properties/C01conc.v)" % tier,
                     trusted_base=C.TRUSTED_BASE + [
@@ -459,7 +476,14 @@ def run(tier="quick", replay=None):
                     ])
     assumptions = ["the exploration is bounded: preemption bound %d, one request per racing connection, the set-ups listed in SCENARIOS" % cov.get("preemption_bound", 0),
                    "the witness theorems are about the micro-programs of ConcView.v; their correspondence with the code is the replay of every witness schedule on the real handlers"]
-    C.write_evidence("C01conc", tier, coverage, assumptions, time.time() - t0, [dict(v) for v in viol], level="proof")
+    if not merge_pid:
+        C.write_evidence("C01conc", tier, coverage, assumptions, time.time() - t0, [dict(v) for v in viol], level="proof")
+        return rc
+    tb = coverage.pop("trusted_base")[len(C.TRUSTED_BASE):]
+    err = C.merge_evidence(merge_pid, "concurrent_clause", coverage, info, assumptions, tb, rc, time.time() - t0,
+                           " && coqc ConcView.v proofs/ConcViewProofs.v Properties/C01conc.v", [dict(v) for v in viol])
+    if err:
+        print("INTERNAL: " + err); return 2
     return rc
 
 
